@@ -61,7 +61,7 @@ def lengths_for(c):
 
 
 WRITE_PATHS = ["writebytes", "upload", "writefile", "appendbytes", "piecewise", "copy", "move", "copy_file",
-               "append_seek", "append_plus_lines"]
+               "append_seek", "append_plus_lines", "truncate_rewrite"]
 READ_PATHS = ["readbytes", "download", "read", "readinto", "readline", "iterate", "hash", "getsize"]
 
 
@@ -99,6 +99,15 @@ def write_path(fsx, how, path, data, chunk):
             rest = data[half:]
             step = max(1, (chunk or 7))
             f.writelines([rest[i:i + step] for i in range(0, len(rest), step)])
+    elif how == "truncate_rewrite":
+        # io semantics: truncate(n) keeps the position; the next write continues there
+        half = len(data) // 2
+        with fs.openbin(path, "w") as f:
+            f.write(data[:half] + b"#JUNK#JUNK")
+            k = half // 2
+            f.seek(k)
+            f.truncate(half)        # size half, position still k
+            f.write(data[k:])
     elif how == "copy":
         fs.writebytes(path + ".src", data)
         fs.copy(path + ".src", path, overwrite=True)
@@ -286,7 +295,7 @@ def run(report):
         r.close()
     # (3) text layer against CPython's io.TextIOWrapper
     tcases = 0
-    for bc in ([B.Mem, B.OS, B.SubMem] if thorough else [B.Mem, B.OS]):
+    for bc in ([B.Mem, B.OS, B.SubMem, B.Wrap, B.MountSub, B.MultiOne] if thorough else [B.Mem, B.OS, B.SubMem, B.Wrap]):
         b = bc()
         try:
             fsx = b.make()
@@ -321,6 +330,35 @@ def run(report):
                     bad.append(("text not read back as io.TextIOWrapper would", dict(backend=bc.name, encoding=enc, errors=errs,
                                                                                   newline=nl, text=text[:40]),
                                 repr(back)[:120], repr(ref_back)[:120]))
+            # the convenience methods take the same parameters: writetext / appendtext / readtext
+            for (enc, errs), text in itertools.product(ENCODINGS, TEXTS):
+                if not thorough and rnd.random() > 0.5:
+                    continue
+                total += 1
+                tcases += 1
+                kw = dict(encoding=enc) if errs is None else dict(encoding=enc, errors=errs)
+                ref_bytes, ref_back = text_reference(text, enc, errs, "")
+                try:
+                    fsx.writetext("t2", text[: len(text) // 2], newline="", **kw)
+                    fsx.appendtext("t2", text[len(text) // 2:], newline="", **kw)
+                    got_bytes = fsx.readbytes("t2")
+                except Exception as e:
+                    got_bytes = ("raises", type(e).__name__)
+                if enc == "utf-16":
+                    pass            # a second BOM is written by the append: CPython does the same, not compared
+                elif got_bytes != ref_bytes:
+                    bad.append(("text not stored as io.TextIOWrapper would", dict(backend=bc.name, encoding=enc, errors=errs,
+                                                                               newline="", text=text[:40], via="writetext+appendtext"),
+                                repr(got_bytes)[:120], repr(ref_bytes)[:120]))
+                elif not isinstance(got_bytes, tuple):
+                    try:
+                        back = fsx.readtext("t2", newline="", **kw)
+                    except Exception as e:
+                        back = ("raises", type(e).__name__)
+                    if back != ref_back:
+                        bad.append(("text not read back as io.TextIOWrapper would", dict(backend=bc.name, encoding=enc, errors=errs,
+                                                                                      newline="", text=text[:40], via="readtext"),
+                                    repr(back)[:120], repr(ref_back)[:120]))
             # defaults: unchanged
             for text in TEXTS:
                 fsx.writetext("d", text)
